@@ -12,7 +12,7 @@ V = os.path.dirname(os.path.dirname(os.path.abspath(__file__)))
 ORACLE = os.path.join(V, '.build', 'cargo', 'release', 'eg_oracle')
 
 RULE = ('sector/arc correspondence: Sector::points/contains, Arc::points (row bit masks; order checked), styled sector and arc '
-        'pixels()/draw()/bounding_box, Sector::offset; angles: whole-degree (start, sweep) pairs (quick: 30 sweeps per start '
+        'pixels()/draw()/bounding_box, Sector::offset, Sector/Arc::with_center + center() (sec_ctor: every d 0..40, random up to 2^20; search p_sec_ctor: with_center(center()) = id, from_circle(to_circle()) = id, center = box centre = Circle centre); angles: whole-degree (start, sweep) pairs (quick: 30 sweeps per start '
         'rotating through -360..360, d in {23,24}; thorough: ALL 360x721 pairs for d in {23,24} and every d in 0..24 for a 1/9 '
         'sample), random hundredths of degrees and random f32 bit patterns in +-1080 deg, sweeps clustered at 0, +-55, +-180, '
         '+-305, +-360 deg; diameters 0..60 (masks, contains windows) and 61..128 (point lists, styled); stroke widths 0..12 all alignments, fill/stroke colours present or not; positions '
@@ -189,6 +189,13 @@ def cases(tier, rng):
         if k % 5 == 0:
             out.append(J('sec_styled', x, y, d, a, s, ps, *nn[5:8], *st))
             out.append(J('arc_styled', x, y, d, a, s, ps, *st))
+    # (3c) constructors: with_center / center for every diameter 0..40 (odd and even) and random ones, both signs
+    for d in range(0, 41):
+        for (cx, cy) in ((0, 0), (-7, 3), (10, -10)):
+            out.append(J('sec_ctor', cx, cy, d))
+    for _ in range(300 if tier == 'quick' else 5000):
+        big = rng.random() < 0.2
+        out.append(J('sec_ctor', coord(rng, big), coord(rng, big), rng.randrange(0, 300) if not big else rng.randrange(0, 2 ** 20)))
     # (4) styled, whole degrees around the bevel / operation thresholds, all alignments
     sw = [0, 1, 30, 54, 55, 56, 90, 179, 180, 181, 270, 304, 305, 306, 359, 360]
     g = [(s, w * sg) for s in range(0, 360, 15 if tier == 'quick' else 5) for w in sw for sg in (1, -1)]
@@ -244,6 +251,12 @@ def search(tier, rng):
         k = rng.random()
         d = rng.randrange(0, 26) if k < 0.5 else rng.randrange(0, 129)
         out.append(J('p_sec_within', coord(rng), coord(rng), d, rand_angle(rng), rand_sweep(rng)))
+    for d in range(0, 34):
+        for (x, y) in ((0, 0), (-9, 4)):
+            out.append(J('p_sec_ctor', x, y, d, D(30), D(-300)))
+    for _ in range(400 if tier == 'quick' else 8000):
+        big = rng.random() < 0.2
+        out.append(J('p_sec_ctor', coord(rng, big), coord(rng, big), rng.randrange(0, 200), rand_angle(rng), rand_sweep(rng)))
     for _ in range(200 if tier == 'quick' else 4000):
         out.append(J('p_sec_far', coord(rng), coord(rng), rng.randrange(0, 129), rand_angle(rng), rand_sweep(rng)))
     return out + fixed_point_search(tier, rng)
